@@ -428,7 +428,18 @@ def rule_c13_expected_greedy(prog: Program, col: Collector) -> None:
     mean1b = ("call", ("attr", E, "mean"), (), (("axis", ("const", 1)),))
     mean1c = ("call", ("attr", E, "mean"), (("const", 1),), ())
     means = (mean1, mean1b, mean1c)
-    idx_assign = [e for e in ft.of_kind("assign") if e.name == "best_action_index"]
+    # local names are found through the code's own structure (robust to renaming):
+    #   chosen = CANDS[IDX][-1];  seq.append(chosen);  CANDS is the third argument of the stacked-gaps call
+    cands_name = idx_name = None
+    an = stacked[0].arg_nodes[2] if len(stacked[0].arg_nodes) > 2 else None
+    if isinstance(an, ast.Name):
+        cands_name = an.id
+    for e in ft.of_kind("assign"):
+        vn = e.data.get("value_node")
+        if isinstance(vn, ast.Subscript) and isinstance(vn.value, ast.Subscript) and isinstance(vn.value.value, ast.Name) \
+                and vn.value.value.id == cands_name and isinstance(vn.value.slice, ast.Name):
+            idx_name = vn.value.slice.id
+    idx_assign = [e for e in ft.of_kind("assign") if idx_name is not None and e.name == idx_name]
     if not idx_assign:
         # any assignment whose value is argmin/argmax of something over E
         idx_assign = [e for e in ft.of_kind("assign") if any(is_call_to(s, "numpy.argmin", "numpy.argmax") for s in subterms(e.value))]
@@ -460,7 +471,7 @@ def rule_c13_expected_greedy(prog: Program, col: Collector) -> None:
     # append + remove before rebuilding the candidates
     app = [e for e in ft.calls("append") if e.recv is not None]
     rem = [e for e in ft.calls() if e.name in ("remove", "discard") and e.recv is not None]
-    rebuild = [e for e in ft.of_kind("assign") if e.name == "possible_next_action_sequences" and any(f[0] in ("while", "for") for f in e.ctx)]
+    rebuild = [e for e in ft.of_kind("assign") if cands_name is not None and e.name == cands_name and any(f[0] in ("while", "for") for f in e.ctx)]
     if not app or not rebuild:
         raise AnalysisError(f"{ref.short}: append of the chosen coalition / rebuild of the candidate list not found")
     a = app[0]
